@@ -742,16 +742,29 @@ func init() {
 			jobs = append(jobs, Job{Harness: "VX_C14_tojson", Params: P("shape", "empty", "namelen", "0", "n", "0", "strlen", "1")})
 			jobs = append(jobs, Job{Harness: "VX_C14_tojson", Params: P("shape", "concrete", "namelen", "0", "n", "1", "strlen", "1"), MaxSteps: 50000000})
 			jobs = append(jobs, Job{Harness: "VX_C14_tojson", Params: P("shape", "big", "namelen", "0", "n", "1", "strlen", "1"), MaxSteps: 400000000})
+			// ReadJSON of what ToJSON wrote (behind the reference decoder)
+			rj := []string{"int,bool", "float", "enum,float", "string", "bool,enum,int,float"}
+			if tier == "thorough" {
+				rj = append(rj, "string,int", "string,string", "enum,string")
+			}
+			for _, ts := range rj {
+				jobs = append(jobs, Job{Harness: "VX_C14_readjson", Params: P("types", ts, "n", "2", "strlen", "1"), MaxPaths: 300000})
+			}
+			jobs = append(jobs, Job{Harness: "VX_C14_readjson", Params: P("types", "int,float", "n", "1", "strlen", "1")})
+			if tier == "thorough" {
+				jobs = append(jobs, Job{Harness: "VX_C14_readjson", Params: P("types", "string", "n", "1", "strlen", "2"), MaxPaths: 300000})
+				jobs = append(jobs, Job{Harness: "VX_C14_readjson", Params: P("types", "int,bool,float", "n", "3", "strlen", "1"), MaxPaths: 300000})
+			}
 			return jobs
 		},
 		Bounds: func(tier string) string {
 			if tier == "thorough" {
-				return "ToJSON on derived frames: column names of 1-3 symbolic bytes over {a, quote, backslash, 0x01, 0x7f, 0xC3, 0x80}; string cells of 0..3 bytes over {a, quote, backslash, 0x00, 0x1f, LF, 0x7f, 0x80, 0xC2, 0xE2, 0xA8, 0xA9} and null; mixed frames (int,bool,string,enum,float with NaN) of 2 rows; 0 rows"
+				return "ToJSON on derived frames: column names of 1-3 symbolic bytes over {a, quote, backslash, 0x01, 0x7f, 0xC3, 0x80}; string cells of 0..3 bytes over {a, quote, backslash, 0x00, 0x1f, LF, 0x7f, 0x80, 0xC2, 0xE2, 0xA8, 0xA9} and null; mixed frames (int,bool,string,enum,float with NaN) of 2 rows; 0 rows; a 700-row frame (text > 8 KiB); ReadJSON(ToJSON(f)) for frames of 1-3 rows with 1-4 columns over int, bool, enum, NaN-free finite float and nullable string (cells 0..2 bytes)"
 			}
-			return "ToJSON on derived frames: column names of 1-2 symbolic bytes over {a, quote, backslash, 0x01, 0x7f, 0xC3, 0x80}; string cells of 0..2 bytes over {a, quote, backslash, 0x00, 0x1f, LF, 0x7f, 0x80, 0xC2, 0xE2, 0xA8, 0xA9} and null; mixed frames (int,bool,string,enum,float with NaN) of 2 rows; 0 rows"
+			return "ToJSON on derived frames: column names of 1-2 symbolic bytes over {a, quote, backslash, 0x01, 0x7f, 0xC3, 0x80}; string cells of 0..2 bytes over {a, quote, backslash, 0x00, 0x1f, LF, 0x7f, 0x80, 0xC2, 0xE2, 0xA8, 0xA9} and null; mixed frames (int,bool,string,enum,float with NaN) of 2 rows; 0 rows; a 700-row frame (text > 8 KiB); ReadJSON(ToJSON(f)) for frames of 1-2 rows with 1-4 columns over int, bool, enum, NaN-free finite float and nullable string (cells 0..1 byte)"
 		},
-		Assume:   []string{"the output is read by a reference reader for the JSON subset written in the harness from RFC 8259", "number tokens of symbolic numbers are the engine's injective text model (DESIGN 3.4); the digit code is C16's", "ReadJSON: encoding/json's reflection-driven decoder cannot be executed by the engine; the ReadJSON half of the property is NOT decided (stated in level_note)"},
-		Outside:  []string{"ReadJSON (encoding/json decoder)", "strings longer than 3 bytes", "U+2028/U+2029 (3-byte sequences over the alphabet are reachable only in the thorough tier)"},
+		Assume:   []string{"the output is read by a reference reader for the JSON subset written in the harness from RFC 8259", "number tokens of symbolic numbers are the engine's injective text model (DESIGN 3.4); the digit code is C16's", "ReadJSON: encoding/json's reflection-driven Decoder.Decode is replaced by the same reference reader, producing the []map[string]interface{} the documentation of encoding/json describes (numbers float64, null nil, last duplicate key wins); everything after decoding (type detection from the first record, fill functions, New) is the real code; column order and enum values are declared to ReadJSON"},
+		Outside:  []string{"encoding/json's decoder itself", "zero-row frames for ReadJSON (the text [] carries no columns)", "strings longer than 3 bytes", "U+2028/U+2029 (3-byte sequences over the alphabet are reachable only in the thorough tier)"},
 		MinReach: []string{"end"}, TVVectors: 2,
 	})
 }
@@ -773,6 +786,7 @@ func init() {
 					jobs = append(jobs, Job{Harness: "VX_C15_write", Params: P("op", op, "n", n)})
 				}
 			}
+			jobs = append(jobs, Job{Harness: "VX_C15_readjson", Params: P("chunk", "0")}, Job{Harness: "VX_C15_readjson", Params: P("chunk", "3")})
 			jobs = append(jobs, Job{Harness: "VX_C15_write_big", Params: P("op", "tojson", "n", "1100"), MaxSteps: 400000000}, Job{Harness: "VX_C15_write_big", Params: P("op", "tocsv", "n", "1100"), MaxSteps: 400000000})
 			jobs = append(jobs, Job{Harness: "VX_C15_sql", Params: P("what", "prepare", "at", "0")}, Job{Harness: "VX_C15_sql", Params: P("what", "query", "at", "0")})
 			for at := 0; at <= 3; at++ {
